@@ -69,6 +69,7 @@ PROPS = {
                      "a race report is always a real race; absence is limited to executed accesses"],
         stages=[
             dict(name="exhaustive", engine="sched", run="^TestC06_Exhaustive2$", quick=1, thorough=1, shards_quick=8, shards_thorough=16),
+            dict(name="exhaustive_big", engine="sched", run="^TestC06_ExhaustiveBig$", quick=1, thorough=1, shards_quick=4, shards_thorough=16),
             dict(name="schedules", engine="sched", run="^TestC06_Schedules$", quick=400, thorough=4000, shards_quick=4, shards_thorough=16),
             dict(name="exhaustive3", engine="sched", run="^TestC06_Exhaustive3$", quick=1, thorough=1, shards_thorough=16, thorough_only=True),
             dict(name="race", engine="race", run="^TestC06Race_", quick=100, thorough=1500, shards_quick=2, shards_thorough=8, expect_race_free=True),
